@@ -11,6 +11,7 @@ CONSTANTS
   MaxPeer = 4
   MaxPush = 1
   Faults = {}
+  MaxFaults = 1
   RespShapes <- RS_sub12
   Abandon = TRUE
   MaxArr = 1
